@@ -43,11 +43,12 @@ enum { K_LAST_OWNER, K_LAST_REF, K_LOCK_OK, K_LOCK_DEAD, K_LOCK_INTO_LAST_OWNER,
 static const char *w_counter_names[] = { "last_owner_released", "last_reference_released_bookkeeping_freed", "lock_yields_owner", "lock_on_dead_allocation_fails", "lock_into_the_last_owner_of_the_same_allocation",
                                           "retarget_of_pointer_that_owns", "share_or_from_with_empty_source", "states_where_weak_outlives_owners", "unique_release", "unique_reset_with_clear", "weak_references_dropped_inside_the_clear_callback", NULL };
 
+static int USE_MACRO;      /* odd configurations build the pointer objects with the CSTL_*_PTR_INITIALIZER macros instead of the init functions */
 static int w_nconfigs(int thorough) { return thorough ? 5 : 4; }
 static void w_setup(int cfg, int thorough)
 {
     int i, j, w;
-    SELFW = cfg == (thorough ? 4 : 3);
+    SELFW = cfg == (thorough ? 4 : 3); USE_MACRO = cfg & 1;
     MODE = cfg == 1; NS = cfg >= 2 ? 4 : 3; NW = cfg == 3 ? 3 : 2;
     if (SELFW) { NS = thorough ? 4 : 3; NW = 2; }
     w_nops = 0;
@@ -72,9 +73,9 @@ static void w_init(void)
     int i;
     shim_reset();
     nAL = 0; memset(AL, 0, sizeof AL); opno = 0; memset(selfw_todo, 0, sizeof selfw_todo);
-    for (i = 0; i < NSP; i++) { memset(&SP[i], 0xA5, sizeof SP[i]); cstl_shared_ptr_init(&SP[i]); m_sp[i] = -1; }
-    for (i = 0; i < NWP; i++) { memset(&WP[i], 0xA5, sizeof WP[i]); cstl_weak_ptr_init(&WP[i]); m_wp[i] = -1; }
-    for (i = 0; i < NUP; i++) { memset(&UP[i], 0xA5, sizeof UP[i]); cstl_unique_ptr_init(&UP[i]); m_up[i] = -1; }
+    for (i = 0; i < NSP; i++) { memset(&SP[i], 0xA5, sizeof SP[i]); if (USE_MACRO) SP[i] = (cstl_shared_ptr_t)CSTL_SHARED_PTR_INITIALIZER(SP[i]); else cstl_shared_ptr_init(&SP[i]); m_sp[i] = -1; }
+    for (i = 0; i < NWP; i++) { memset(&WP[i], 0xA5, sizeof WP[i]); if (USE_MACRO) WP[i] = (cstl_weak_ptr_t)CSTL_WEAK_PTR_INITIALIZER(WP[i]); else cstl_weak_ptr_init(&WP[i]); m_wp[i] = -1; }
+    for (i = 0; i < NUP; i++) { memset(&UP[i], 0xA5, sizeof UP[i]); if (USE_MACRO) UP[i] = (cstl_unique_ptr_t)CSTL_UNIQUE_PTR_INITIALIZER(UP[i]); else cstl_unique_ptr_init(&UP[i]); m_up[i] = -1; }
 }
 
 static int live_allocs(void) { int a, n = 0; for (a = 0; a < nAL; a++) n += AL[a].used && (AL[a].mem_live || AL[a].book_live); return n; }
